@@ -137,6 +137,11 @@ func (c *Compiler) Compile(node parser.Node) error {
 			return c.errorf(node, "too many constants: %d (limit %d)",
 				n, maxOperand2+1)
 		}
+		// the VM keeps globals in GlobalsSize slots
+		if n := c.symbolTable.MaxSymbols(); c.parent == nil && n > GlobalsSize {
+			return c.errorf(node, "too many global variables: %d (limit %d)",
+				n, GlobalsSize)
+		}
 	case *parser.ExprStmt:
 		if err := c.Compile(node.Expr); err != nil {
 			return err
